@@ -391,6 +391,18 @@ ConfigFileUpdate::ConfigFileUpdate(TaskInitializer arg) {
   }
 }
 
+// timestamps are stored as 64-bit decimal numbers; build files written by older
+// versions hold an int, which reads the same way
+static bool ParseTimestamp(const string& str, long long* value) {
+  try {
+    size_t pos = 0;
+    *value = std::stoll(str, &pos);
+    return pos == str.length();
+  } catch (...) {
+    return false;
+  }
+}
+
 static bool ConfigNeedsUpdate(Config* config) {
   auto build_info = (*config)["__build_info"];
   if (!build_info.IsMap()) {
@@ -406,8 +418,8 @@ static bool ConfigNeedsUpdate(Config* config) {
       {"config_source_file", "", ".yaml"}));
   for (auto entry : *timestamps.AsMap()) {
     auto value = As<ConfigValue>(entry.second);
-    int recorded_time = 0;
-    if (!value || !value->GetInt(&recorded_time)) {
+    long long recorded_time = 0;
+    if (!value || !ParseTimestamp(value->str(), &recorded_time)) {
       LOG(WARNING) << "invalid timestamp for " << entry.first;
       return true;
     }
@@ -419,8 +431,8 @@ static bool ConfigNeedsUpdate(Config* config) {
       }
       continue;
     }
-    if (recorded_time !=
-        (int)filesystem::to_time_t(fs::last_write_time(source_file))) {
+    if (recorded_time != static_cast<long long>(filesystem::to_time_t(
+                             fs::last_write_time(source_file)))) {
       LOG(INFO) << "source file " << (recorded_time ? "changed: " : "added: ")
                 << source_file;
       return true;
